@@ -883,8 +883,12 @@ func TestC17(t *testing.T) {
 		widx   int
 	}
 	var wjobs []wjob
+	only := os.Getenv("C17_ONLY") // development / sensitivity runs: restrict to one chain
 	for _, rn := range chains() {
 		emu := rn.Name() == "emulated"
+		if only != "" && only != rn.Name() {
+			continue
+		}
 		g16commits := []string{commitNone, commitMixed}
 		plkCommits := []string{commitNone, commitMixed, commitTwo}
 		nW := 1
@@ -932,7 +936,9 @@ func TestC17(t *testing.T) {
 	hangWG.Add(1)
 	go func() {
 		defer hangWG.Done()
-		hangProbe(r)
+		if only == "" {
+			hangProbe(r)
+		}
 	}()
 
 	workers := 12
@@ -944,7 +950,11 @@ func TestC17(t *testing.T) {
 	hangWG.Wait()
 	fmt.Printf("C17 progress: hang probe done after %.0fs\n", time.Since(tStart).Seconds())
 
-	for _, ch := range []string{"2chain", "emulated"} {
+	chainsRun := []string{"2chain", "emulated"}
+	if only != "" {
+		chainsRun = []string{only}
+	}
+	for _, ch := range chainsRun {
 		for _, s := range []string{"groth16", "plonk"} {
 			pre := ch + "." + s + "."
 			r.Require(pre+"agree.both-accept", 6)
@@ -959,7 +969,7 @@ func TestC17(t *testing.T) {
 		r.Require(ch+".groth16.agree.both-reject.class.surplus-commitment-forgery", 1)
 	}
 	if r.Thorough() {
-		for _, ch := range []string{"2chain", "emulated"} {
+		for _, ch := range chainsRun {
 			for _, s := range []string{"groth16", "plonk"} {
 				r.Require(ch+"."+s+".engine=r1cs", 4)
 				r.Require(ch+"."+s+".engine=scs", 4)
